@@ -96,6 +96,11 @@ AsList(e)            == [e EXCEPT !.form = "list"]
 AddParam(e, p)       == [AsList(e) EXCEPT !.params = Append(@, p)]
 SetParam(e, k, p)    == [AsList(e) EXCEPT !.params = Append(SelectSeq(@, LAMBDA x : x.k # k), p)]
 
+\* strings that a laxer comparison (trimming, case folding, parsing as Rust syntax) would take for a documented value:
+\* the documented values are exactly "", "pub", "pub(crate)" and the mode names, byte for byte
+NearMissVis   == {"pub ", " pub", " ", "pub( crate )", "pub(in crate)", "PUB", "Pub", "pub(self)", "crate", "pub(crate) ", "pub (crate)", "public"}
+NearMissModes == {"Table", "AUTO", " auto", "table ", "", "Match", "next-and-back", "tableinline"}
+
 \* each mutation is [why |-> STRING, cfg |-> cfg]
 EntryMutations(cfg, p) ==
   LET e == EntryAt(cfg, p) f == e.f IN
@@ -112,6 +117,8 @@ EntryMutations(cfg, p) ==
       [why |-> "bare mode", cfg |-> WithEntry(cfg, p, SetParam(e, "mode", P("mode", "none", "")))],
       [why |-> "mode(list)", cfg |-> WithEntry(cfg, p, SetParam(e, "mode", P("mode", "list", "table")))],
       [why |-> "duplicate parameter", cfg |-> WithEntry(cfg, p, AddParam(SetParam(e, "mode", P("mode", "str", "auto")), P("mode", "str", "auto")))]}
+       \cup {[why |-> "mode string that only resembles a documented one", cfg |-> WithEntry(cfg, p, SetParam(e, "mode", P("mode", "str", v)))] :
+               v \in NearMissModes}
      ELSE {[why |-> "mode on a feature without modes", cfg |-> WithEntry(cfg, p, AddParam(e, P("mode", "str", "auto")))]})
   \cup (IF "vis" \in ParamsOf(f) THEN
      {[why |-> "vis outside the documented values", cfg |-> WithEntry(cfg, p, SetParam(e, "vis", P("vis", "str", "pub(super)")))],
@@ -121,6 +128,8 @@ EntryMutations(cfg, p) ==
       [why |-> "name = integer", cfg |-> WithEntry(cfg, p, SetParam(e, "name", P("name", "int", "1")))],
       [why |-> "bare name", cfg |-> WithEntry(cfg, p, SetParam(e, "name", P("name", "none", "")))],
       [why |-> "duplicate name", cfg |-> WithEntry(cfg, p, AddParam(SetParam(e, "name", P("name", "str", "nn1")), P("name", "str", "nn2")))]}
+       \cup {[why |-> "vis string that only resembles a documented one", cfg |-> WithEntry(cfg, p, SetParam(e, "vis", P("vis", "str", v)))] :
+               v \in NearMissVis}
      ELSE {[why |-> "name on a trait feature", cfg |-> WithEntry(cfg, p, AddParam(e, P("name", "str", "nn1")))],
            [why |-> "vis on a trait feature", cfg |-> WithEntry(cfg, p, AddParam(e, P("vis", "str", "pub")))]})
   \cup (IF "struct_name" \in ParamsOf(f) THEN
